@@ -455,6 +455,7 @@ func c05(c *Ctx) {
 	c05SerialisedUnmodified(c)
 	// the file channel's serialised lines reach the rotating file in whole-line batches (shared with C07): a batch that
 	// ends inside a line lets a rotation put the two halves of one event's JSON into two files
+	bufferNotShrunkAcrossIterations(c, "read-buffer-full-size-per-request", "its payload, payload-hex and payload-length are those of a prefix no longer than the shortest earlier body (a GET followed by a POST records the POST with an empty payload)", "services")
 	c07WholeLineBatches(c)
 	releasedMemoryNotRetained(c, "released-memory-not-retained", "the document queued for one event is overwritten by the next event before it is published – invalid JSON or another event's keys", "pushers", "event")
 }
